@@ -21,6 +21,10 @@ package cloudblob
 //@   assert at call OnCreated#1@5ad31d69.1: sc.n > old(sc.n) && sc.ret0[sc.n - 1] && sc.arg1[sc.n - 1] == iface(callarg1.MetaData.Source)
 //@   assert at call OnUpdated#1@b7304af4.1: sc.n > old(sc.n) && !sc.ret0[sc.n - 1] && sc.arg1[sc.n - 1] == iface(callarg1.MetaData.Source) && beq.n > old(beq.n) && !beq.ret0[beq.n - 1] && beq.arg1[beq.n - 1] == callarg1.Hash
 //@   assert at call OnDeleted#1@c98cf5d3.1: callarg1 != nil && len(callarg1.Rules) == 0
+// "removed or emptied sources are unloaded": the removal is announced under the name the rule set was
+// loaded under - the state's key, which is the Source its creation carried (see the assertion on
+// OnCreated above: the membership tests are made with ruleSet.Source)
+//@   assert at call OnDeleted#1@c98cf5d3.1: callarg1.MetaData.Source == ID
 
 // C07 "concurrent changes ... all take effect (none is lost or half overwritten)": one run of
 // watchChanges looks the state of its source up and acts on it afterwards; runs for one source must
